@@ -394,12 +394,17 @@ def c04_shapes(tier):
             shapes.append((src, [0, 0], 'c04/%s bytes%s' % (src[6:], '-'.join(map(str, ls))), {'pa_tmpl': tmpl('safe', [], ['b%d' % l for l in ls], [S(i) for i in range(len(ls))] + ['\x02', '-g'])}))
     shapes.append(('hx_pa_argfile', [0, 0], 'c04/argfile names itself', {'pa_tmpl': tmpl('safe', [], [], ['-f', '\x03', '--arg-file', '/tmp/vs_home/args.txt', '\x02', '-g'])}))
     shapes.append(('hx_pa_argfile', [0, 1], 'c04/argfile names itself (first line)', {'pa_tmpl': tmpl('safe', [], [], ['--arg-file=/tmp/vs_home/args.txt', '\x03', '-f', '\x02', '-g'])}))
+    shapes.append(('hx_pa_argfile', [0, 2], 'c04/argfiles name each other', {'pa_tmpl': tmpl('safe', [], [], ['-f', '\x03', '--arg-file', '/tmp/vs_home/args2.txt', '\x02', '-g'])}))
+    shapes.append(('hx_pa_argfile', [0, 2], 'c04/argfile names a second file', {'pa_tmpl': tmpl('safe', [], [], ['-f', '\x02', '--arg-file=/tmp/vs_home/args2.txt'])}))
     shapes.append(('hx_pa_argfile', [0, 0], 'c04/argfile names a missing file', {'pa_tmpl': tmpl('safe', [], ['s2'], ['--arg-file', '/tmp/vs_home/' + S(0), '\x02', '-g'])}))
     # key-value destination with the default and two custom pair formats: arbitrary bytes as value list / inside the enclosing characters
     for opt in (0, 256, 512):
         for words, slots in ((['-m', S(0)], ['b1']), (['-m', S(0)], ['b2']), (['-m', S(0)], ['b3']), (['-m', '|' + S(0) + '|'], ['b2']), (['-m', '{' + S(0) + '}'], ['b2']), (['-m', '|;{;}'], []), (['-m', '|'], []), (['-m', '{'], []), (['-m', '||'], []),
                              (['--map=' + S(0) + ';' + S(1)], ['b1', 'b1']), (['-m', '|1=' + S(0) + '|;|'], ['b1'])):
             shapes.append(('hx_pa', [11, opt << 8], lab('c04/pair format%d' % opt, words), {'pa_tmpl': tmpl('safe', [], slots, words)}))
+    # tuple destination whose cardinality check was removed, map destination with a check on every pair
+    for words, slots in ((['-t', S(0) + ',' + S(1) + ',' + S(2)], ['d1', 'd1', 'd1']), (['-t', S(0) + ',' + S(1)], ['d1', 'b1']), (['-t', S(0), '-t', S(1) + ',' + S(2) + ',' + S(0)], ['d1', 'd1', 'd1']), (['--tuple=' + S(0)], ['b3'])):
+        shapes.append(('hx_pa', [11, 32768 << 8], lab('c04/tuple without cardinality', words), {'pa_tmpl': tmpl('safe', [], slots, words)}))
     # help for a single argument: known, unknown and arbitrary keys
     for words, slots in ((['--help-arg', S(0)], ['b2']), (['--help-arg-full', S(0)], ['b2']), (['--help-arg-full=' + S(0)], ['b1']), (['--help-arg-full', 'x'], []), (['--help-arg-full=--nosuch'], []), (['--help-arg-full=-'], []), (['--help-arg-full', 'number'], []),
                          (['--help-arg-full=n', '-f'], []), (['--help-arg', 'zz'], []), (['--help-arg-full'], []), (['--help-arg='], [])):
@@ -547,6 +552,14 @@ def c06_shapes(tier):
         shapes.append(('hx_pa', [11, opt << 8], lab('c06/map%d' % opt, words), {'pa_tmpl': tmpl('ok', items, KR, words)}))
     for words, slots, opt in ((['-m', S(0) + ',' + S(3) + ';' + S(0) + ',' + S(4)], KR, 8), (['-m', S(0)], KR, 0), (['-m', S(0) + ','], KR, 0), (['-m', ',' + S(3)], KR, 0), (['-m', S(0) + ',' + S(3)], ['r2:10:19', 'd1', 'd1', 'a1'], 0)):
         shapes.append(('hx_pa', [11, opt << 8], lab('c06/map-bad%d' % opt, words), {'pa_tmpl': tmpl('throw', [], slots, words)}))
+    # a check on a key-value destination is applied to every single pair, not to the list
+    shapes.append(('hx_pa', [11, 16384 << 8], 'c06/map checked pairs', {'pa_tmpl': tmpl('ok', ['kv=1:5+#0:#3+#1:#4+#2:#5'], KR, ['-m', S(0) + ',' + S(3) + ';' + S(1) + ',' + S(4) + ';' + S(2) + ',' + S(5)])}))
+    shapes.append(('hx_pa', [11, 16384 << 8], 'c06/map checked pairs bad', {'pa_tmpl': tmpl('throw', [], ['r2:10:19', 'r3:100:999', 'r3:100:999'], ['-m', S(0) + ',' + S(0) + ';' + S(1) + ',' + S(2)])}))
+    # fixed-size destinations filled by repeated uses of the argument
+    for key, dst in (('-a', 'arr'), ('-y', 'sa')):
+        for words in ([key, S(0) + ',' + S(1), key, S(2)], [key, S(0), key, S(1), key, S(2)], [key, S(0), '-f', key, S(1) + ',' + S(2)]):
+            shapes.append(('hx_pa', [6, 0], lab('c06/%s repeated uses' % dst, words), {'pa_tmpl': tmpl('ok', ['%s=#0,#1,#2' % dst], ['d1', 'd2', 'd3'], words)}))
+        shapes.append(('hx_pa', [6, 0], lab('c06/%s repeated uses overflow' % dst, [key, '@0,@1,@2', key, '@0,@1']), {'pa_tmpl': tmpl('throw', [], ['d1', 'd1', 'd1'], [key, S(0) + ',' + S(1) + ',' + S(2), key, S(0) + ',' + S(1)])}))
     # tuple: exactly three elements, in order, also split over the list
     shapes.append(('hx_pa', [11, 0], 'c06/tuple', {'pa_tmpl': tmpl('ok', ['tp=#0,#1,#2'], ['d1', 'd2', 'd3'], ['-t', S(0) + ',' + S(1) + ',' + S(2)])}))
     shapes.append(('hx_pa', [11, 0], 'c06/tuple long key', {'pa_tmpl': tmpl('ok', ['tp=#0,#1,#2', 'f=1'], ['d2', 'd2', 'd1'], ['--tuple=' + S(0) + ',' + S(1) + ',' + S(2), '-f'])}))
